@@ -17,6 +17,6 @@ u64 _ZSt11_Hash_bytesPKvmm(u8 *p, u64 n, u64 seed)
 }
 #endif
 #ifdef DECL__ZNKSt8__detail20_Prime_rehash_policy14_M_need_rehashEmmm
-struct lit1 _ZNKSt8__detail20_Prime_rehash_policy14_M_need_rehashEmmm(void *pol, u64 n_bkt, u64 n_elt, u64 n_ins)
-{ struct lit1 r; r.f0 = 0; r.f1 = 0; return r; }
+RET__ZNKSt8__detail20_Prime_rehash_policy14_M_need_rehashEmmm _ZNKSt8__detail20_Prime_rehash_policy14_M_need_rehashEmmm(void *pol, u64 n_bkt, u64 n_elt, u64 n_ins)
+{ RET__ZNKSt8__detail20_Prime_rehash_policy14_M_need_rehashEmmm r; r.f0 = 0; r.f1 = 0; return r; }
 #endif
